@@ -1,7 +1,7 @@
 (* C05: XML export followed by import reproduces the topology (attribute-level round trips and the
    export-side model; the tokenizer-level round trip needs Text/XmlLex.v of C06, see xml_roundtrip_partial). *)
 From Coq Require Import String NArith ZArith List Bool.
-From HV Require Import Base.Bytes Text.Base64 Text.Base64Proofs Text.XmlEscape Text.XmlEscapeProofs Text.XmlExport.
+From HV Require Import Base.Bytes Text.Base64 Text.Base64Proofs Text.XmlEscape Text.XmlEscapeProofs Text.XmlExport Text.XmlExportProofs.
 Import ListNotations.
 Local Open Scope N_scope.
 
@@ -52,3 +52,79 @@ Theorem export_filters_invalid : forall s,
   (safestrdup s <> s <-> xml_safe_string s = false).
 Proof. intros s. split; [apply safestrdup_safe|]. split; [apply safestrdup_id|apply safestrdup_loses]. Qed.
 Print Assumptions export_filters_invalid.
+
+(* ------------------------------------------------------------------------------------------------
+   Attribute lists.  What new_prop prints for any list of attributes (names over [a-z_], values
+   without NUL) is read back by the import loop "while (next_attr(...) >= 0)" as the same list, in
+   order, then the loop stops at the NUL that find_child stored over the closing bracket.
+
+   xml_roundtrip_partial: this is the attribute-level part of  import (export t) ~ t.  Missing for
+   the full statement: (1) the element level (find_child / close_tag / close_child of the nolibxml
+   tokenizer, owned by C06: coq/Text/XmlLex.v does not exist yet), (2) value-level parsers:
+   strtoul/strtoull of the decimal renderings (Base/Strto) and hwloc_bitmap_sscanf of the set
+   renderings (C04: Properties_C04.roundtrip_partial, bounded), (3) the object-insertion logic of
+   hwloc__xml_import_object.  Those clauses are decided by differential execution on the real
+   library (checks/c05.py): dump equality original vs reloaded over the whole backend matrix. *)
+Theorem xml_roundtrip_partial : forall attrs fuel, Forall attr_ok attrs -> (length attrs < fuel)%nat ->
+  parse_attrs fuel (flat_map print_attr attrs ++ [0]) = attrs.
+Proof. exact attrs_roundtrip_l. Qed.
+Print Assumptions xml_roundtrip_partial.
+Example xml_roundtrip_nonvacuous :
+  Forall attr_ok [(lit "type", lit "PU"); (lit "os_index", lit "3"); (lit "name", [97; 60; 34; 38; 10; 200])] /\
+  flat_map print_attr [(lit "type", lit "PU"); (lit "name", [97; 60; 34; 38; 10; 200])] =
+    lit " type=""PU"" name=""a&lt;&quot;&amp;&#10;" ++ [200; 34].
+Proof.
+  split; [|vm_compute; reflexivity].
+  repeat constructor; cbn [fst snd]; try reflexivity; discriminate.
+Qed.
+
+(* info pairs: any two byte strings, exported through the filter, come back as the filtered pair *)
+Theorem info_roundtrip : forall i,
+  match info_node i with
+  | XNode _ attrs _ => parse_attrs 3 (flat_map print_attr attrs ++ [0]) = [(lit "name", safestrdup (fst i)); (lit "value", safestrdup (snd i))]
+  end.
+Proof. exact info_attrs_roundtrip_l. Qed.
+Print Assumptions info_roundtrip.
+
+(* userdata, base64 path: for every byte string (embedded NUL included) the nolibxml importer finds content of
+   exactly BASE64_ENCODED_LENGTH(length) bytes and decodes it, into its length+1 buffer, to the exported bytes *)
+Theorem userdata_base64_roundtrip : forall bytes tail,
+  Forall (fun b => b < 256) bytes ->
+  get_content (until_nul (encode bytes) ++ lit "</userdata>" ++ tail) (encoded_length (N.of_nat (length bytes))) = Some (encode bytes) /\
+  decode (encode bytes) (N.of_nat (length bytes) + 1) = Some bytes.
+Proof. intros bytes tail H. exact (userdata_base64_roundtrip_l bytes tail H). Qed.
+Print Assumptions userdata_base64_roundtrip.
+Example userdata_base64_nonvacuous : Forall (fun b => b < 256) [0; 1; 0; 255; 60].
+Proof. repeat constructor. Qed.
+
+(* userdata, plain path: hwloc_export_obj_userdata accepts every HWLOC_XML_CHAR_VALID buffer, the nolibxml backend
+   writes it unescaped and reads up to the next '<' without unescaping: false in general, true without '<' *)
+Theorem userdata_plain_markup_refuted :
+  exists c, check_buffer c = true /\
+            userdata_node {| ud_b64 := false; ud_name := None; ud_bytes := c |} <> None /\
+            forall tail, get_content (until_nul c ++ lit "</userdata>" ++ tail) (N.of_nat (length c)) = None.
+Proof. exact userdata_plain_markup_refuted_l. Qed.
+Print Assumptions userdata_plain_markup_refuted.
+Theorem userdata_plain_roundtrip_partial : forall c tail,
+  check_buffer c = true -> existsb (N.eqb 60) c = false ->
+  get_content (until_nul c ++ lit "</userdata>" ++ tail) (N.of_nat (length c)) = Some c.
+Proof. exact userdata_plain_roundtrip_l. Qed.
+Print Assumptions userdata_plain_roundtrip_partial.
+Example userdata_plain_nonvacuous : check_buffer (lit "a&b> c") = true /\ existsb (N.eqb 60) (lit "a&b> c") = false.
+Proof. split; reflexivity. Qed.
+
+(* the export itself: hwloc___xml_v2export_distances prints up to ten "Type:gp_index " entries into char _tmp[255].
+   On the faithful model the export of a loaded topology is NOT always defined (witness: twenty objects with
+   20-digit gp_index; replayed on the C code: ASan stack-buffer-overflow, corpus/c05/hetero-distances-large-gp_index),
+   and it is defined exactly when every distances line is shorter than 255 bytes *)
+Theorem export_total_refuted : exists T, export_bytes false false T = None.
+Proof. exists overflow_topo. exact export_overflow_refuted_l. Qed.
+Print Assumptions export_total_refuted.
+Theorem export_total_partial : forall v2 ud T,
+  export_bytes v2 ud T <> None <-> forallb dist_fits (t_distances T) = true.
+Proof. exact export_defined_iff_l. Qed.
+Print Assumptions export_total_partial.
+Example export_total_nonvacuous :
+  forallb dist_fits [{| d_hetero := true; d_unique_type := 0; d_kind := 5; d_name := None; d_indexes := [];
+                        d_objs := [(4, 2); (6, 18446744073709551615)]; d_values := [10; 20; 20; 10] |}] = true.
+Proof. vm_compute. reflexivity. Qed.
